@@ -1550,7 +1550,7 @@ class Emitter:
             if 'byval' in info:
                 raise Unsupported('byval argument')
             argv.append(s.val(a))
-        if name in ('@_Znwm', '@_Znam', '@malloc') and d and args[0][0][0] == 'int' and I['dest'] in s.cast_of \
+        if name in ('@_Znwm', '@_Znam', '@malloc', '@__cxa_allocate_exception') and d and args[0][0][0] == 'int' and I['dest'] in s.cast_of \
                 and isinstance(s.cast_of[I['dest']], (StructTy, IntTy, PtrTy)) \
                 and not getattr(s.cast_of[I['dest']], 'opaque', False):
             T = s.ctype(s.cast_of[I['dest']])
